@@ -32,6 +32,17 @@ impl<'a> DirectEventAccessor<'a> {
         }
     }
 
+    /// Get a field value as a u64 when it does not fit an i64 (such values are kept as
+    /// their decimal string in memory)
+    #[inline]
+    pub fn get_field_as_u64(&self, field: &str) -> Option<u64> {
+        self.event
+            .payload
+            .get(field)
+            .and_then(|v| v.as_str())
+            .and_then(|s| s.parse::<u64>().ok())
+    }
+
     /// Get a field value as an f64 when the payload holds a float
     #[inline]
     pub fn get_field_as_f64(&self, field: &str) -> Option<f64> {
